@@ -138,10 +138,10 @@ def model_runs(ctx, pid, lattice, calls, flips, label):
     """M for one instance: intended variant verifies the property; as-is variant: statistics + exported histories"""
     probe = PROBES[pid]
     jobs = [dict(module="Session", cfg_text=cfg(probe, lattice, calls, flips, True, False, ["ProbeSeesItsArguments"]),
-                 workers=4, coverage=True, timeout=1500),
+                 workers=4, coverage=True, timeout=1500, heap="2g"),
             # as-is: one worker (breadth-first: shortest witnesses), statistics and HIST export in the same run
             dict(module="Session", cfg_text=cfg(probe, lattice, calls, flips, False, True), workers=1, coverage=True,
-                 timeout=1500)]
+                 timeout=1500, heap="2g")]
     return jobs
 
 
@@ -164,19 +164,19 @@ def run(ctx):
             owners.append((pid, label, kind))
     for (pid, lattice, calls, flips) in model_only(ctx):
         jobs.append(dict(module="Session", cfg_text=cfg(PROBES[pid], lattice, calls, flips, True, False, ["ProbeSeesItsArguments"]),
-                         workers=ctx.pick(2, 8), timeout=1500))
+                         workers=ctx.pick(2, 8), timeout=1500, heap="4g"))
         owners.append((pid, "%s %s calls<=%d flips<=%d (model only)" % (pid, "small" if lattice is SMALL else "wide", calls, flips), "monly"))
     # the as-is model against the property (smallest instance): TLC must find a counter-example; thorough: one
     # invariant at a time - which classes does the as-is model say are violated?
     jobs.append(dict(module="Session", cfg_text=cfg(PROBES["P1"], SMALL, 2, 1, False, False, ["ProbeSeesItsArguments"]),
-                     workers=1, timeout=600))
+                     workers=1, timeout=600, heap="1g"))
     owners.append(("P1", "as-is ProbeSeesItsArguments", "inv"))
     if not ctx.quick:
         for inv in INVARIANTS:
             jobs.append(dict(module="Session", cfg_text=cfg(PROBES["P1"], SMALL, 2, 1, False, False, [inv]), workers=1,
-                             timeout=600))
+                             timeout=600, heap="1g"))
             owners.append(("P1", "as-is " + inv, "inv"))
-    results = tlc.run_parallel(jobs, max_procs=8)
+    results = tlc.run_parallel(jobs, max_procs=ctx.pick(6, 5))
     ctx.log("TLC: %d runs in %.0fs" % (len(jobs), time.time() - t0))
     exported = {}       # (pid, canonical hist) -> pred
     model_classes = {}
@@ -242,12 +242,12 @@ def run(ctx):
         e = exported[k]
         hdr = dict(probe=PROBES[pid], exp=expected(PROBES[pid]), hist=e["hist"], has_pred=True, pred_stale=e["stale"],
                    pred_excs=e["excs"], relational=False)
-        traces.append(dict(id=i + 1, hdr=hdr, after=enc_run(rec), fresh=fresh[pid]))
+        traces.append(dict(id=i + 1, hdr=hdr, after=enc_run(rec), fresh_id=pid))
         meta[i + 1] = (pid, e)
         differs = [c for c in e["hist"] if any(c[x] != PROBES[pid][x] for x in d.DIMS) or c["out"] != "ok"]
         if differs:
             ctx.nontrivial.add(k)
-    judge(ctx, traces, meta)
+    judge(ctx, traces, meta, fresh)
     # harness validation: forked children vs brand-new interpreters on a few items (probe alone + longest histories)
     pick = [0] + sorted(range(len(PROBES), len(items)), key=lambda j: (-len(items[j]["hist"]), j))[:ctx.pick(1, 5)]
     ctx.coverage["fork_vs_fresh_interpreter_pairs"] = fork_equals_fresh_interpreter(
@@ -259,7 +259,7 @@ def run(ctx):
             samples.append({"history": t["hdr"]["hist"], "probe": t["hdr"]["probe"], "model_predicts_stale": t["hdr"]["pred_stale"],
                             "outcomes_of_earlier_calls": t["after"]["hist_exc"],
                             "probe_after_history": {k: t["after"][k] for k in ("driver", "typ", "lev", "mode", "fee_rate", "bal", "slice", "visible", "shared", "exc")},
-                            "probe_fresh": {k: t["fresh"][k] for k in ("driver", "typ", "lev", "mode", "fee_rate", "bal", "slice", "visible", "shared", "exc")}})
+                            "probe_fresh": {k: fresh[t["fresh_id"]][k] for k in ("driver", "typ", "lev", "mode", "fee_rate", "bal", "slice", "visible", "shared", "exc")}})
     ctx.evaluations = len(traces)
     ctx.coverage.update({
         "traces_validated_against_impl": len(traces), "histories_replayed": len(traces), "real_sessions_run": n_sessions,
@@ -290,14 +290,16 @@ def fork_equals_fresh_interpreter(ctx, items, recs):
     from concurrent.futures import ThreadPoolExecutor
     with ThreadPoolExecutor(max_workers=4) as ex:
         spawned = list(ex.map(spawn_item, items))
-    traces = []
+    traces, fr = [], {}
     for i, (it, a, b) in enumerate(zip(items, recs, spawned)):
         hdr = dict(probe=it["probe"], exp=expected(it["probe"]), hist=[], has_pred=False, pred_stale=[], pred_excs=[],
                    relational=True)
         ea, eb = enc_run(a), enc_run(b)
         ea["hist_exc"], eb["hist_exc"] = [], []
-        traces.append(dict(id=i + 1, hdr=hdr, after=ea, fresh=eb))
-    verdicts, _ = tlc.validate_traces("TraceSession", "TraceSession.cfg", traces, ctx.sub("forkcheck"), parts=1)
+        traces.append(dict(id=i + 1, hdr=hdr, after=ea, fresh_id="i%d" % i))
+        fr["i%d" % i] = eb
+    verdicts, _ = tlc.validate_traces("TraceSession", "TraceSession.cfg", traces, ctx.sub("forkcheck"), parts=1,
+                                      hdr={"fresh": fr})
     for i, v in sorted(verdicts.items()):
         if v[1] != "ok":
             raise Machinery("a forked child does not behave like a fresh interpreter for %s: %s" % (
@@ -305,9 +307,11 @@ def fork_equals_fresh_interpreter(ctx, items, recs):
     return len(traces)
 
 
-def judge(ctx, traces, meta):
-    """TLC compares the two runs of every pair; Python turns TLC's verdict text into signatures"""
-    verdicts, results = tlc.validate_traces("TraceSession", "TraceSession.cfg", traces, ctx.scratch, parts=12)
+def judge(ctx, traces, meta, fresh):
+    """TLC compares the two runs of every pair; Python turns TLC's verdict text into signatures.
+    fresh: {fresh_id: RUN record of the probe in a never-used process} (shared by all traces of a probe)"""
+    verdicts, results = tlc.validate_traces("TraceSession", "TraceSession.cfg", traces, ctx.scratch,
+                                            parts=min(12, 1 + len(traces) // 150), hdr={"fresh": fresh})
     agree = {}
     shapes = {}
     for i, v in sorted(verdicts.items()):
@@ -348,6 +352,6 @@ def replay(ctx, rp):
         if isinstance(rec, tuple):
             raise Machinery("child failed: %s" % (rec[1][:1500],))
     hdr = dict(probe=probe, exp=expected(probe), hist=p["hist"], has_pred=False, pred_stale=[], pred_excs=[], relational=False)
-    traces = [dict(id=1, hdr=hdr, after=enc_run(recs[1]), fresh=enc_run(recs[0]))]
-    v = judge(ctx, traces, {1: (p.get("probe_id", "replay"), {"hist": p["hist"], "probe": probe})})
+    traces = [dict(id=1, hdr=hdr, after=enc_run(recs[1]), fresh_id="f")]
+    v = judge(ctx, traces, {1: (p.get("probe_id", "replay"), {"hist": p["hist"], "probe": probe})}, {"f": enc_run(recs[0])})
     print("replay verdict:", v[1])
